@@ -401,14 +401,47 @@ fn in_child(kind: &str, payload: &str, tag: &str) -> Kind {
 struct Sink<'a> { rep: &'a mut Report, seen: BTreeSet<String> }
 impl<'a> Sink<'a> {
     /// one oracle failure per distinct finding key (the report keeps at most 20 entries)
-    fn fail(&mut self, k: &Kind, entry: &str, input: Value, outside_quantifier: bool) {
-        let key = k.finding_key().unwrap_or_default();
+    /// `cause` = class of the triggering input (see `case_cause` / `text_cause`): it is part of the finding key, so that a
+    /// known finding does not mask a panic at the same site that has another kind of cause
+    fn fail(&mut self, k: &Kind, entry: &str, input: Value, outside_quantifier: bool, cause: &str) {
+        let key = format!("{}@{cause}", k.finding_key().unwrap_or_default());
         self.rep.stat(&format!("bad_outcome[{entry}]:{key}"));
         if outside_quantifier { self.rep.stat(&format!("outside_quantifier:{key}")); return; }
         if self.seen.insert(key.clone()) {
             self.rep.oracle_fail(json!({"why": format!("{entry}: {}", k.brief()), "finding_key": key, "entry_point": entry, "input": input}));
         }
     }
+}
+
+// ------------------------------------------------------------------------------------------------
+// cause classes (second half of a finding key)
+
+/// class of an AIR text: bracket nesting depth and character set
+fn text_cause(text: &str) -> &'static str {
+    let (mut d, mut max) = (0i64, 0i64);
+    for b in text.bytes() { match b { b'(' | b'[' => { d += 1; if d > max { max = d; } } b')' | b']' => d -= 1, _ => {} } }
+    if max >= 10_000 { "nesting>=10000" } else if max >= 1_000 { "nesting>=1000" } else if !text.is_ascii() { "non-ascii-text" } else { "ascii-text" }
+}
+
+const MALFORMED_KINDS: [&str; 9] = ["bitflip", "bytes-overwritten", "truncated", "random-bytes", "rkyv-bytes-damaged", "envelope-claims-4GiB-inner", "call-results-bytes-damaged", "call-results-random-bytes", "odd-interpreter-version"];
+
+fn has_empty_string_field(j: &Value) -> bool {
+    let ci = &j["cid_info"];
+    let empty_key_or = |store: &str, f: &dyn Fn(&Value) -> bool| ci[store].as_object().map(|o| o.iter().any(|(k, v)| k.is_empty() || f(v))).unwrap_or(false);
+    empty_key_or("value_store", &|v| v.as_str() == Some("")) || empty_key_or("service_result_store", &|v| v["argument_hash"].as_str() == Some("") || v["value_cid"].as_str() == Some("") || v["tetraplet_cid"].as_str() == Some(""))
+        || j["trace"].as_array().map(|t| t.iter().any(|s| s.to_string().contains("\"\""))).unwrap_or(false)
+}
+
+/// class of the input of an `execute_air` case: where the data comes from and which gross feature it has
+fn case_cause(c: &Case, cur_j: Option<&Value>, prev_j: Option<&Value>) -> String {
+    if MALFORMED_KINDS.contains(&c.note.as_str()) { return if c.raw_results.is_some() { "damaged-call-results".into() } else { "byte-damage".into() }; }
+    if c.outside_quantifier { return "crafted-previous-data".into(); }
+    if c.cur.is_empty() { return "honest-data".into(); }
+    let gen = cur_j.map(max_generation).unwrap_or(0).max(prev_j.map(max_generation).unwrap_or(0));
+    // crafted data that must not be decoded in this process carries an empty string (see the catalog)
+    if c.abort_risk || cur_j.map(has_empty_string_field).unwrap_or(false) { return "crafted-data:empty-string-field".into(); }
+    if gen >= (1 << 20) { return "crafted-data:generation>=2^20".into(); }
+    "crafted-data".into()
 }
 
 // ------------------------------------------------------------------------------------------------
@@ -492,10 +525,10 @@ fn check_text(inv: &Inventory, sink: &mut Sink, text: &str, label: &str) {
     let (r, bad) = guarded_text(inv, text.len(), || air_parser::parse(text).map(|_| ()).map_err(|e| e.len()));
     sink.rep.stat(match (&r, &bad) { (_, Some(_)) => "parse:bad", (Some(Ok(())), _) => "parse:ok", _ => "parse:rejected" });
     let short = || -> Value { if text.len() <= 400 { json!({"air": text, "label": label}) } else { json!({"air_prefix": text.chars().take(120).collect::<String>(), "air_len": text.len(), "label": label, "recipe": label}) } };
-    if let Some(k) = &bad { sink.fail(k, "air_parser::parse", short(), false); }
+    if let Some(k) = &bad { sink.fail(k, "air_parser::parse", short(), false, text_cause(text)); }
     let (r2, bad2) = guarded_text(inv, text.len(), || { let mut out = vec![]; air_beautifier::Beautifier::new(&mut out).enable_all_patterns().beautify(text).is_ok() });
     sink.rep.stat(match (&r2, &bad2) { (_, Some(_)) => "beautify:bad", (Some(true), _) => "beautify:ok", _ => "beautify:rejected" });
-    if let Some(k) = &bad2 { sink.fail(k, "air_beautifier::Beautifier::beautify", short(), false); }
+    if let Some(k) = &bad2 { sink.fail(k, "air_beautifier::Beautifier::beautify", short(), false, text_cause(text)); }
     let nontrivial = text.len() > 2;
     sink.rep.case(&format!("text|{text}"), nontrivial, || json!({"text": text.chars().take(160).collect::<String>(), "label": label, "parse": bad.as_ref().map(|k| k.brief()).unwrap_or(json!(r.map(|x| x.is_ok()))), "beautify": bad2.as_ref().map(|k| k.brief())}));
 }
@@ -523,7 +556,7 @@ impl<'a> DataRun<'a> {
         let (r, bad) = guarded(self.inv, bytes.len(), || air::to_human_readable_data(b).is_ok());
         sink.rep.stat(match (&r, &bad) { (_, Some(_)) => "human_readable:bad", (Some(true), _) => "human_readable:ok", _ => "human_readable:rejected" });
         sink.rep.evaluations += 1;
-        if let Some(k) = &bad { sink.fail(k, "air::to_human_readable_data", json!({"data_hex": hex(bytes), "label": label}), false); }
+        if let Some(k) = &bad { sink.fail(k, "air::to_human_readable_data", json!({"data_hex": hex(bytes), "label": label}), false, if label == "honest" { "honest-data" } else { "crafted-or-damaged-data" }); }
     }
 
     /// one full case: execute_air (in-process, or in a child when the data could make the process abort), the pretty printer on
@@ -543,7 +576,7 @@ impl<'a> DataRun<'a> {
         let reached = match &kind { Kind::Returned(code) => !(1..=9999).contains(code), _ => true };
         sink.rep.case(&canon, reached, || json!({"label": c.label, "note": c.note, "air": c.air.chars().take(200).collect::<String>(), "outcome": kind.brief()}));
         sink.rep.stat(&match &kind { Kind::Returned(code) => format!("ret_{}", crate::gen_codes::name_of(*code)), Kind::Panic { .. } => "PANIC".into(), Kind::Abort { .. } => "ABORT".into(), Kind::Alloc { .. } => "ALLOC_BLOWUP".into() });
-        if kind.finding_key().is_some() { sink.fail(&kind, "air::execute_air", c.to_json(), c.outside_quantifier); }
+        if kind.finding_key().is_some() { let cause = case_cause(c, cur_j.as_ref(), prev_j.as_ref()); sink.fail(&kind, "air::execute_air", c.to_json(), c.outside_quantifier, &cause); }
         if !c.abort_risk { self.check_hrd(sink, &c.cur, &c.label); }
         if let Some(o) = &outcome { self.check_hrd(sink, &o.data, &c.label); }
         // model: execution stage only, on decoded data
@@ -619,6 +652,11 @@ pub fn catalog() -> Vec<Case> {
         out.push(forged_case(&format!("raw-value-{tag}"), "value store text that is not JSON under its correct CID; the call result is an executed scalar of the attacker",
             format!(r#"(seq (call "{aid}" ("s" "f") [] x) (call "{vid}" ("s" "id") [x] y))"#), c, CallResults::new()));
     }
+    { // the same text in PREVIOUS data is not re-verified (previous data is the peer's own output): outside the quantifier; the model keeps this panic site
+      let mut c = Craft::empty(); let cid = c.forge_result(&a, "s", "f", &[], "not json"); c.trace().push(st_scalar(&cid)); c.resign(&a, "c01");
+      out.push(Case { label: "raw-value-not-json-in-previous-data".into(), note: "a non-JSON value text in PREVIOUS data (never produced by the interpreter)".into(),
+        air: format!(r#"(seq (call "{aid}" ("s" "f") [] x) (call "{vid}" ("s" "id") [x] y))"#), prev: c.encode().unwrap(), cur: vec![], peer: v.clone(), init_id: aid.clone(), particle: "c01".into(),
+        results: CallResults::new(), raw_results: None, outside_quantifier: true, abort_risk: false }); }
     // the same through a failed call and through an unused-output call / stream
     { let mut c = Craft::empty(); let cid = c.forge_result(&a, "s", "f", &[], "not json"); c.trace().push(st_failed(&cid));
       out.push(forged_case("raw-value-not-json-failed", "failed-call state whose error value text is not JSON", format!(r#"(xor (call "{aid}" ("s" "f") [] x) (null))"#), c, CallResults::new())); }
@@ -794,8 +832,7 @@ pub fn run(ctx: &mut Ctx, rep: &mut Report) {
         sink.rep.stat(&format!("child:{entry}:{}", match &k { Kind::Returned(_) => "returned", Kind::Abort { .. } => "ABORT", _ => "bad" }));
         if k.finding_key().is_some() {
             // one finding per entry point and abort kind: nesting depth beyond the stack
-            let k = match k { Kind::Abort { key, detail } => Kind::Abort { key: format!("{key}:nesting-depth"), detail }, other => other };
-            sink.fail(&k, &format!("{entry} (child process)"), json!({"recipe": format!("deep_text({kind:?}, {depth}) = {}…", deep_text(kind, 2)), "depth": depth, "entry": entry}), false);
+            sink.fail(&k, &format!("{entry} (child process)"), json!({"recipe": format!("deep_text({kind:?}, {depth}) = {}…", deep_text(kind, 2)), "depth": depth, "entry": entry}), false, text_cause(&deep_text(kind, depth)));
         }
     }
 
@@ -830,7 +867,7 @@ pub fn run(ctx: &mut Ctx, rep: &mut Report) {
             let prev = if rng.chance(1, 3) { vec![] } else { st.prev.clone() };
             let c = Case { label: format!("history-{hi}-step-{}", st.step), note: what.join("; "), air: h.air.clone(), prev, cur, peer: peers[st.peer].clone(), init_id: init_id.clone(), particle: h.net.particle.clone(),
                 results: if rng.chance(1, 4) { st.results.clone() } else { CallResults::new() }, raw_results: None, outside_quantifier: false,
-                abort_risk: what.iter().any(|w| w.contains("raw value \"\"")) };
+                abort_risk: what.iter().any(|w| w.contains("raw value \"\"")) || has_empty_string_field(&craft.j) };
             for w in &what { sink.rep.stat(&format!("mutation:{}", w.split(|ch: char| ch.is_ascii_digit() || ch == ':' || ch == '(').next().unwrap_or("").trim())); }
             dr.run(ctx, &mut sink, &c);
         }
